@@ -393,11 +393,14 @@ class TypeChecker(walkers.dag.DagWalker):
             ):
                 # check if t and x have at least one common ancestor
                 t = cast(_UserType, t)
-                if x.is_user_type():
-                    x = cast(_UserType, x)
-                    x_ancestors = set(x.ancestors)
-                    if all(t_ancestor not in x_ancestors for t_ancestor in t.ancestors):
-                        return None
+                if not x.is_user_type():
+                    # an object can only be compared with an object: reject, as
+                    # the mirrored equality is rejected below
+                    return None
+                x = cast(_UserType, x)
+                x_ancestors = set(x.ancestors)
+                if all(t_ancestor not in x_ancestors for t_ancestor in t.ancestors):
+                    return None
             elif (t.is_int_type() or t.is_real_type()) and not (
                 x.is_int_type() or x.is_real_type()
             ):
